@@ -809,6 +809,17 @@ def run(tier, seed):
         C.write_evidence("C05", tier, seed, cov, time.time() - t0, 1)
         C.violation("C05", path)
         return 1
+    # the arguments on their way through the runtime: a call that is answered runs NO user code of the argument types (their Debug impls
+    # only run when the call ends in an error whose message renders the call: Model/Run.v debug_runs); the Layer A harness method
+    # DB::db(a: A8) has an argument whose Debug impl counts its runs (and panics for one value), observed through `callm`
+    from ..trace_part import TracePart
+    tn, tpayload, tcov = TracePart("C05", n_quick=100, n_thorough=1000)(rng, tier, seed, [])
+    cov.update(tcov)
+    if tpayload is not None:
+        path = C.write_replay("C05", seed, tpayload)
+        C.write_evidence("C05", tier, seed, cov, time.time() - t0, 1)
+        C.violation("C05", path)
+        return 1
     if any(p["status"] == "known" for p in probes):
         print(f"KNOWN-FINDING: property=C05 {entry.get('id', '')} {KNOWN_WHAT} [{sum(1 for p in probes if p['status'] == 'known')} probe shape(s), e.g. "
               + probes[0]["rust_trait"].splitlines()[2].strip() + "]")
@@ -824,6 +835,9 @@ def replay(path):
     if payload.get("part") == "deleg":
         from .. import deleg_part as DP
         return DP.replay("C05", payload, path)
+    if payload.get("part") == "trace":
+        from ..trace_part import replay_trace
+        return replay_trace("C05", payload, path)
     case = payload.get("case")
     if case is None:
         print("replay file names an obligation, not an input:", payload.get("theorem_or_correspondence"))
